@@ -88,7 +88,8 @@ def gen(args):
         exact = name in ("fFPS", "sFPS", "VoronoiFPS", "sPCovFPS")
         unit = 16 if name == "sPCovFPS" else (2 if exact else (10000 if family == "fps" else 1000000))
         tol = 0 if exact else 3
-        nmax = N if family == "fps" else N - 1
+        # CUR on data of full rank N: requesting ALL items is a request like any other (every second data set)
+        nmax = N if (family == "fps" or (name in ("fCUR", "sCUR") and di % 2 == 0 and N <= 6)) else N - 1
         if blockdata:
             nmax = 3            # rank 4: the number of selections stays below the rank (the property's precondition)
         kw0 = dict(extra)
